@@ -722,6 +722,50 @@ def is_type_issubclassable(
         builtin_tester_pith=type,
     )
 
+def is_type_subclass_or_nominal(cls: object, base: object) -> bool:
+    '''
+    :data:`True` only if the first passed object is a subclass of the second
+    passed object, safely falling back to a **nominal subclass test** (i.e.,
+    whether the second object resides in the method resolution order (MRO) of
+    the first) when the second object is *not* an **issubclassable class**
+    (i.e., class that may be passed as the second parameter to the
+    :func:`issubclass` builtin without raising an exception).
+
+    This tester is a safe alternative to the :func:`issubclass` builtin, which
+    raises a :exc:`TypeError` when passed non-classes *or* classes whose
+    metaclasses prohibit subclass checks (e.g., :pep:`544`-compliant protocols
+    that either are not decorated by :func:`typing.runtime_checkable` *or*
+    declare non-method members).
+
+    Parameters
+    ----------
+    cls : object
+        Object to be tested as a subclass.
+    base : object
+        Object to be tested as a superclass.
+
+    Returns
+    -------
+    bool
+        :data:`True` only if the first object is a subclass of the second.
+    '''
+
+    # If the first object is *NOT* a class, this object is the subclass of
+    # nothing. In this case, return false.
+    if not isinstance(cls, type):
+        return False
+    # Else, the first object is a class.
+    #
+    # If the second object is an issubclassable class, defer to the builtin.
+    elif is_type_issubclassable(base):
+        return issubclass(cls, base)  # type: ignore[arg-type]
+    # Else, the second object is *NOT* an issubclassable class.
+
+    # Return true only if the second object is a class that is either the first
+    # class itself *OR* an explicit superclass of the first class.
+    return isinstance(base, type) and base in cls.__mro__
+
+
 # ....................{ PRIVATE ~ hints                    }....................
 _NontypeTester = Callable[[object, Pep3119Checkable], bool]
 '''
